@@ -4,11 +4,17 @@ import Swat4.Spec.GS1Spec
 Driver side of C08:
 
 * `C08 dec <dialect> <fields> <players> <objectives> <cuts> <order> <dgrams> => <result tokens…>`
-  The driver re-encodes the abstract status with the Lean encoder (`GS1Spec.encodeStatus`) and
+  (players = `kvs|kvs|…`: indexes 0,1,2,… in the servers' own order — the format of the corpus files)
+* `C08 decw <dialect> <fields> <players> <objectives> <wire> <cuts> <order> <dgrams> => <result tokens…>`
+  (players = `<id>=kvs|<id>=kvs|…`: explicit indexes, gaps and any listing order; `<wire>` = the order
+  in which the pairs are sent, as indexes into `GS1Spec.items status`; the driver insists that it is a
+  wire order of the status, `GS1Spec.wireOfB`)
+  The driver re-encodes the pair sequence with the Lean encoder (`GS1Spec.encodeWire`) and
   insists that it equals `<dgrams>` (otherwise the Go generator's encoder and the specification
   have drifted apart: `BAD-LINE`).  Model: `runQuery` over the delivered sequence.  Oracle (on the
-  implementation's output): the delivery covers all fragments ⇒ output = `toResponse dialect status`;
-  otherwise ⇒ `timeout` (it must not complete before every fragment has arrived).
+  implementation's output): the delivery covers all fragments ⇒ output = `toResponse dialect status`
+  (players ascending by index); otherwise ⇒ `timeout` (it must not complete before every fragment
+  has arrived).
 * `C08 probe <gameport> <responder>;… => chosen <k> <ver> res:<class> | failed`
   responder = `x` | `<delay_ms>/<dgrams>`; arrival order = ascending delay.  Model:
   `GS1.choose`.  Oracle: the kept answer is among the accepted ones (decodes, hostport = game
@@ -28,8 +34,9 @@ def dialect? : String → Option Dialect
 
 def covers (n : Nat) (order : List Nat) : Bool := (List.range n).all fun i => order.contains i
 
-def handleDec (d : Dialect) (s : Status) (cuts order : List Nat) (ds : List Bytes) (out : List String) : Verdict :=
-  if encodeStatus d s cuts ≠ ds then .bad "encoder-mismatch: Lean encodeStatus differs from the generator's datagrams"
+def handleDec (d : Dialect) (s : GS1Spec.Status) (w : List Item) (cuts order : List Nat) (ds : List Bytes) (out : List String) : Verdict :=
+  if !wireOfB s w then .bad "wire: the pair sequence is not a wire order of the status"
+  else if encodeWire d w cuts ≠ ds then .bad "encoder-mismatch: Lean encodeWire differs from the generator's datagrams"
   else
     match order.mapM fun (i : Nat) => ds[i]? with
     | none => .bad "order"
@@ -81,12 +88,33 @@ def handleProbe (gamePort : Int) (rs : List (Option (Nat × List Bytes))) (out :
   let tie := ok && model.getD 0 "" == "chosen" && out.getD 0 "" == "chosen" && model.getD 2 "" == out.getD 2 ""
   verdict (model == out.take 3 || tie) ok s!"sig=choice model={" ".intercalate model}"
 
+/-- `<id>=kvs|<id>=kvs|…` -/
+def playersIds? (s : String) : Option (List (Nat × List (Bytes × Bytes))) :=
+  if s = "." then some []
+  else (s.splitOn "|").mapM fun p =>
+    match p.splitOn "=" with
+    | [i, kv] => do
+      let i ← nat? i
+      let kv ← kvs? kv
+      pure (i, kv)
+    | _ => none
+
 def handle (args out : List String) : Verdict :=
   match args with
   | ["dec", d, f, p, o, cuts, order, dg] =>
     match dialect? d, kvs? f, players? p, kvs? o, nats? cuts, nats? order, dgrams? dg with
-    | some d, some f, some p, some o, some cuts, some order, some ds => handleDec d ⟨f, p, o⟩ cuts order ds out
+    | some d, some f, some p, some o, some cuts, some order, some ds =>
+      let s : GS1Spec.Status := ⟨f, enumFrom 0 p, o⟩
+      handleDec d s (items s) cuts order ds out
     | _, _, _, _, _, _, _ => .bad "C08 dec args"
+  | ["decw", d, f, p, o, wire, cuts, order, dg] =>
+    match dialect? d, kvs? f, playersIds? p, kvs? o, nats? wire, nats? cuts, nats? order, dgrams? dg with
+    | some d, some f, some p, some o, some wire, some cuts, some order, some ds =>
+      let s : GS1Spec.Status := ⟨f, p, o⟩
+      match wire.mapM fun (i : Nat) => (items s)[i]? with
+      | some w => handleDec d s w cuts order ds out
+      | none => .bad "C08 decw wire index"
+    | _, _, _, _, _, _, _, _ => .bad "C08 decw args"
   | ["probe", gp, rs] =>
     match int? gp, (rs.splitOn ";").mapM responder? with
     | some gp, some rs => handleProbe gp rs out
